@@ -115,17 +115,34 @@ class BuiltinsMixin:
         return n
 
     def merge_dicts(self, a, b):
-        """{**a, **b}: pointwise override; the length is only bounded"""
+        """{**a, **b}: a fresh dict whose members are defined pointwise (b overrides a); the pointwise facts are
+        instantiated where members are read (no lambda / quantifier reaches the solver); the length is bounded"""
         n = self.alloc(builtin_class('dict'))
-        k = z3.Const('mk!', Val)
-        aa, bb = self.dict_arr(a), self.dict_arr(b)
-        arr = z3.Lambda([k], z3.If(z3.Select(bb, k) == smt.ABSENT, z3.Select(aa, k), z3.Select(bb, k)))
+        arr = self.fresh('merged', smt.DictV)
         self.st.dct = z3.Store(self.st.dct, Val.r(n), arr)
         ln = self.fresh('mlen', smt.I)
         la, lb = z3.Select(self.st.dlen, Val.r(a)), z3.Select(self.st.dlen, Val.r(b))
         self._add_axiom(z3.And(ln >= la, ln >= lb, ln <= la + lb, la >= 0, lb >= 0))
         self.st.dlen = z3.Store(self.st.dlen, Val.r(n), ln)
+        self.merged_dicts[arr.get_id()] = (arr, self.dict_arr(a), self.dict_arr(b))
         return n
+
+    def merged_member_fact(self, arr, kk) -> None:
+        """walk down a store chain to a merged base array and instantiate its pointwise definition at key kk"""
+        cur = arr
+        for _ in range(64):
+            if z3.is_app(cur) and cur.decl().kind() == z3.Z3_OP_STORE:
+                cur = cur.arg(0)
+                continue
+            break
+        ent = self.merged_dicts.get(cur.get_id())
+        if ent is None:
+            return
+        base, aa, bb = ent
+        self._add_axiom(z3.Select(base, kk) == z3.If(z3.Select(bb, kk) == smt.ABSENT, z3.Select(aa, kk),
+                                                      z3.Select(bb, kk)))
+        self.merged_member_fact(smt.simp(aa), kk)
+        self.merged_member_fact(smt.simp(bb), kk)
 
     def dict_update_from(self, d, src, node=None) -> None:
         ks = self.concrete_keys(src) if self.class_of(src) is not None else None
@@ -642,6 +659,10 @@ class BuiltinsMixin:
 
     def bb_str_lower(self, s, args, kwargs):
         return smt.simp(Val.str(smt.str_lower(Val.s(s))))
+
+    def bb_json_JSONEncoder_default(self, enc, args, kwargs):
+        """json.JSONEncoder.default(o): always raises TypeError (stdlib)"""
+        self.raise_new('TypeError', smt.mk_str('Object is not JSON serializable'), origin='json.JSONEncoder.default')
 
     # ---- exceptions
     def bb_exc___init__(self, e, args, kwargs):
